@@ -4,7 +4,9 @@
 From MC Require Export Model.Verdict Model.Composite Model.TracePreds.
 Local Open Scope list_scope.
 
-Record round := mkRound { r_cache : cache; r_events : list ev; r_result : sync_result }.
+Record round := mkRound { r_cache : cache; r_events : list ev; r_result : sync_result;
+                          r_queue : list (string * string * Z);   (* op, key, delay in ms *)
+                          r_key : string }.
 Record ccase := mkCase { c_cfg : ccfg; c_rounds : list round }.
 
 (* identity of a call target *)
@@ -212,3 +214,21 @@ Definition C13_round (c : ccfg) (r : round) : option string :=
   end.
 Definition proj_none (c : ccfg) (p : json) (cl : call) : bool := false.
 Definition C13_check := check_with C13_round proj_child_writes true.
+
+(* C12: requeue discipline, nothing swallowed, one bad child blocks nothing *)
+Definition C12_complete (c : ccfg) (r : round) : option string :=
+  match round_desired c (r_events r) with
+  | None => None
+  | Some (sent, ds) =>
+      if status_phase_seen c sent (r_events r) && (negb (is_deleting sent) || should_finalize c sent) &&
+         negb (match round_hook (r_events r) with Some (_, _, hr) => hr_finalized hr | None => true end)
+      then C06_complete c (r_cache r) sent (observed_of c r sent) ds (after_hook (r_events r))
+      else None
+  end.
+
+Definition C12_check := check_with (fun c r =>
+  orelse (with_parent (fun p => C12_round c p (r_key r) (r_events r) (r_result r) (r_queue r)) r)
+         (orelse (C12_complete c r)
+                 (if child_write_seen c (r_events r) &&
+                     negb (match k_parent (r_cache r) with Some p => status_phase_seen c p (r_events r) | None => true end)
+                  then Some "status-not-attempted-after-child-failure" else None))) proj_all true.
